@@ -1,6 +1,7 @@
 SPECIFICATION TSpec
 CONSTANTS
   MaxCh = 6
+INVARIANTS NoNewDeviation
 CONSTRAINT Mark
 POSTCONDITION AllConsumed
 CHECK_DEADLOCK FALSE
